@@ -71,7 +71,7 @@ for k, item in enumerate(job):
                         nodes.append({"cname": o["fmtdict"].get("C_name"), "cxx_name": nm if kind != "ctor" else cls, "kind": kind,
                                       "params": [pkind(p) for p in (a.get("params") or [])
                                                  if not str((p.get("declarator") or {}).get("name", "")).startswith(("SHF_", "SHT_"))],
-                                      "generated": o.get("_generated"),
+                                      "generated": o.get("_generated"), "func_const": bool(a.get("func_const")),
                                       "splicer": bool(o.get("splicer")), "user_pattern": bool(o.get("C_error_pattern") or o.get("fstatements")),
                                       "result": pkind(a)[1]})
                     return
